@@ -611,6 +611,19 @@ func registerHTTPModels(e *Engine) {
 			tok := x.sym(name, SStr)
 			x.renders[name] = &renderInfo{tmpl: t, dataT: iv.T, data: x.deepCopy(iv.V, 0)}
 			x.assume(PrefixOf(StrC("\n<!DOCTYPE"), tok))
+			// the page contains a '%' iff one of the substituted strings does (the
+			// module's template text has none, escaping neither adds nor removes one)
+			if t.text != nil && t.text.IsConst() && !strings.Contains(t.text.S, "%") {
+				anyPct := FalseT
+				if sv, ok := x.force(x.renders[name].data).(*StructV); ok {
+					for _, fv := range sv.F {
+						if ft, ok := fv.(*Term); ok && ft.Sort == SStr {
+							anyPct = Or(anyPct, Contains(ft, StrC("%")))
+						}
+					}
+					x.assume(Eq(Contains(tok, StrC("%")), anyPct))
+				}
+			}
 			r := x.invoke(fr, a[1], "Write", nil, []Value{&BytesV{T: tok}}, nil)
 			if tv, ok := r.(TupleV); ok {
 				return tv[1]
